@@ -154,6 +154,7 @@ func TestVerifC01(t *testing.T) {
 			}
 			return 888888
 		}
+		keySuffix := ""
 		emit := func(kindName string, hist []string, presented string, cidNum uint64, x c01open, nontrivial bool, replay any) {
 			obs := "OFail"
 			ok, note, sig := true, x.err, ""
@@ -177,7 +178,24 @@ func TestVerifC01(t *testing.T) {
 				}
 			}
 			coq := fmt.Sprintf("CEnv %d %s (%s) %d (%s)", W, vharness.List(hist), presented, cidNum, obs)
-			out.Emit(vharness.Case{Kind: kindName, Coq: coq, Key: coq, Nontrivial: nontrivial, OracleOK: ok, Note: note, Sig: sig, Replay: replay})
+			out.Emit(vharness.Case{Kind: kindName, Coq: coq, Key: coq + keySuffix, Nontrivial: nontrivial, OracleOK: ok, Note: note, Sig: sig, Replay: replay})
+		}
+		// the same bytes under the same CID presented again (the message store re-opens parked entries
+		// and listings re-open the whole log): a rejected envelope must leave nothing behind that
+		// lets a later presentation through
+		again := func(kindName string, r *secretStore, hist []string, presented string, cidNum uint64, data []byte, first c01open, replay any) {
+			if first.ok {
+				return
+			}
+			for rep := 2; rep <= 3; rep++ {
+				x := c01try(ctx, r, g, nil, data, vCID(data))
+				keySuffix = fmt.Sprintf("#presentation-%d", rep)
+				emit(kindName+"-again", hist, presented, cidNum, x, true, map[string]any{"presentation": rep, "of": replay})
+				keySuffix = ""
+				if x.ok {
+					return
+				}
+			}
 		}
 
 		// (A) round trip, every payload size, opened after a reordered prefix
@@ -255,6 +273,7 @@ func TestVerifC01(t *testing.T) {
 				r, hist := freshRecv()
 				x := c01try(ctx, r, g, nil, sb.data, vCID(sb.data))
 				emit("substitution", hist, sb.sym, uint64(710000+i), x, true, sb.name)
+				again("substitution", r, hist, sb.sym, uint64(710000+i), sb.data, x, sb.name)
 			}
 		}
 
@@ -279,6 +298,7 @@ func TestVerifC01(t *testing.T) {
 			r, hist := freshRecv(f.opened...)
 			x := c01try(ctx, r, g, nil, f.data, vCID(f.data))
 			emit("member-forgery", hist, f.sym, uint64(720000+i), x, true, f.name)
+			again("member-forgery", r, hist, f.sym, uint64(720000+i), f.data, x, f.name)
 		}
 	}
 	// (E) a forged envelope that claims to come from the very device that opens it: the opener R has
@@ -342,6 +362,16 @@ func TestVerifC01(t *testing.T) {
 				}
 				coq := fmt.Sprintf("CEnv %d %s (PForgedOwn 3 %d (3, %d) 999999 %d) %d (%s)", W, vharness.List(hist), ctr, ctr, signer, 730000+int(ctr)*10+i, obs)
 				out.Emit(vharness.Case{Kind: "own-device-forgery", Coq: coq, Key: coq + fmt.Sprint(round), Nontrivial: true, OracleOK: ok, Note: note, Sig: sig})
+				if !x.ok {
+					x2 := c01try(ctx, r, g, nil, data, vCID(data))
+					obs2, ok2, note2, sig2 := "OFail", true, x2.err, ""
+					if x2.ok {
+						obs2, ok2, sig2 = "OOk 999999", false, "forged envelope accepted"
+						note2 = fmt.Sprintf("second presentation of a rejected envelope (same CID): a payload the opening device never signed is delivered at counter %d", ctr)
+					}
+					coq2 := fmt.Sprintf("CEnv %d %s (PForgedOwn 3 %d (3, %d) 999999 %d) %d (%s)", W, vharness.List(hist), ctr, ctr, signer, 730000+int(ctr)*10+i, obs2)
+					out.Emit(vharness.Case{Kind: "own-device-forgery-again", Coq: coq2, Key: coq2 + fmt.Sprint(round) + "#2", Nontrivial: true, OracleOK: ok2, Note: note2, Sig: sig2})
+				}
 			}
 		}
 	}
